@@ -6,6 +6,8 @@ mod c09;
 mod c11;
 mod c05;
 mod c18;
+mod c15;
+mod c06;
 mod util;
 
 /// Counting allocator: live heap bytes of the process (C17 measures the receiver with it).
@@ -54,6 +56,8 @@ fn main() {
         "memrecv" => c09::run(&args, true),
         "path" => c05::run(&args),
         "multi" => c18::run(&args),
+        "toi" => c15::run(&args),
+        "wire" => c06::run(&args),
         other => {
             eprintln!("unknown subcommand {}", other);
             std::process::exit(2);
